@@ -1,4 +1,31 @@
 import MlodaVerif.Drv.Sched
+import MlodaVerif.Model.Store
+open Lean Store
 namespace Drv.C09
-def handle := Drv.Sched.handle
+
+def dropJson : Drop → Json
+  | .dropped k => jObj [("r", "dropped"), ("key", jOptNat k)]
+  | .pending => jObj [("r", "pending")]
+  | .no => jObj [("r", "no")]
+
+def handle (op : String) (j : Json) : Json :=
+  match op with
+  | "reports" =>
+    -- a compute-framework object driven by a sequence of reports (and uploads): {"children":[..],"ops":[["upload",k]|["report",[..]]]}
+    let c0 : Cfw := { children := natsF j "children" }
+    let (c, outs) := (arrF j "ops").foldl (fun (acc : Cfw × List Json) o =>
+      match asArr o with
+      | [k, v] =>
+        if asStr k == "upload" then (upload acc.1 (asNat v), acc.2 ++ [Json.null])
+        else let (c', d) := report acc.1 ((asArr v).map asNat); (c', acc.2 ++ [dropJson d])
+      | _ => acc) (c0, [])
+    jObj [("outs", jArr outs), ("tracker", jNats c.tracker), ("dataKey", jOptNat c.dataKey)]
+  | "joinAll" =>
+    let spawns := (arrF j "spawns").map (fun s => match asArr s with | [t, b] => (asNat t, asBool b) | _ => (0, false))
+    let fails := natsF j "joinFails"
+    let loop := if strF j "loop" == "raised" then Outcome.raised else Outcome.returned
+    let (w, o) := compute spawns loop (fun t => fails.contains t)
+    jObj [("live", jNats w.live), ("tasks", jNats w.tasks), ("outcome", if o == .raised then "raised" else "returned")]
+  | _ => Drv.Sched.handle op j
+
 end Drv.C09
